@@ -228,7 +228,7 @@ theorem iter_spec {cfg : Cfg} (P : Params α) {den : Key → α} (hden : IsDen c
     (hnw : 1 ≤ cfg.nw) (hcs : cfg.cs = -1 ∨ 1 ≤ cfg.cs)
     (rank : Key → Nat) (hrank : ∀ k deps d, cfg.g.get? k = some (.task deps) → d ∈ deps → rank d < rank k)
     {s : Sys α} (h : SysInv cfg den s) (hloop : loopCond s.st = true) (choice : Nat) :
-    iter cfg P choice s = .error .badChoice ∨
+    (iter cfg P choice s = .error .badChoice ∧ 0 < choice) ∨
     ∃ s' o, iter cfg P choice s = .ok (s', o) ∧
       (o = none → SysInv cfg den s' ∧ s.st.finished.length < s'.st.finished.length) ∧
       (∀ k, o = some k → P.fails k = true ∧ ∃ rest', BatchInv cfg den rest' s' ∧ k ∈ rest'.map (·.1)) ∧
@@ -265,7 +265,16 @@ theorem iter_spec {cfg : Cfg} (P : Params α) {den : Key → α} (hden : IsDen c
   rw [hfire]
   simp only [hpne, if_false]
   cases hb : s1.pending[choice]? with
-  | none => left; rfl
+  | none =>
+    left
+    refine ⟨rfl, ?_⟩
+    cases choice with
+    | succ n => omega
+    | zero =>
+      exfalso
+      cases hp : s1.pending with
+      | nil => exact hpne hp
+      | cons b bs => rw [hp] at hb; simp at hb
   | some batch =>
     right
     simp only []
@@ -318,7 +327,7 @@ theorem mainLoop_spec {cfg : Cfg} (P : Params α) {den : Key → α} (hden : IsD
     (hnw : 1 ≤ cfg.nw) (hcs : cfg.cs = -1 ∨ 1 ≤ cfg.cs)
     (rank : Key → Nat) (hrank : ∀ k deps d, cfg.g.get? k = some (.task deps) → d ∈ deps → rank d < rank k) :
     ∀ (choices : List Nat) (s : Sys α), SysInv cfg den s →
-    mainLoop cfg P choices s = .error .badChoice ∨
+    (mainLoop cfg P choices s = .error .badChoice ∧ ∃ c ∈ choices, 0 < c) ∨
     ∃ s' o, mainLoop cfg P choices s = .ok (s', o) ∧
       (o = .done → SysInv cfg den s' ∧ loopCond s'.st = false) ∧
       (o = .starved → SysInv cfg den s' ∧ loopCond s'.st = true ∧
@@ -343,8 +352,8 @@ theorem mainLoop_spec {cfg : Cfg} (P : Params α) {den : Key → α} (hden : IsD
     unfold mainLoop
     by_cases hl : loopCond s.st = true
     · simp only [hl, if_true]
-      rcases iter_spec P hden hnw hcs rank hrank h hl c with hbad | ⟨s1, o1, hit, hnone, hsome, hmono1, hdd1, hfok1, hlg1⟩
-      · left; rw [hbad]
+      rcases iter_spec P hden hnw hcs rank hrank h hl c with ⟨hbad, hpos⟩ | ⟨s1, o1, hit, hnone, hsome, hmono1, hdd1, hfok1, hlg1⟩
+      · left; rw [hbad]; exact ⟨rfl, c, by simp, hpos⟩
       · rw [hit]
         cases o1 with
         | some k =>
@@ -355,8 +364,8 @@ theorem mainLoop_spec {cfg : Cfg} (P : Params α) {den : Key → α} (hden : IsD
         | none =>
           simp only []
           obtain ⟨hinv1, hlt⟩ := hnone rfl
-          rcases ih s1 hinv1 with hbad | ⟨s', o, hml, hdone, hstarved, hfailed, hmono, hdd, hfok, hlg⟩
-          · left; exact hbad
+          rcases ih s1 hinv1 with ⟨hbad, c', hc', hpos'⟩ | ⟨s', o, hml, hdone, hstarved, hfailed, hmono, hdd, hfok, hlg⟩
+          · left; exact ⟨hbad, c', List.mem_cons_of_mem _ hc', hpos'⟩
           · right
             refine ⟨s', o, hml, hdone, ?_, hfailed, fun k hk => hmono k (hmono1 k hk), hdd.trans hdd1, fun k hk => by
               rcases hfok k hk with h1 | h1
